@@ -288,7 +288,9 @@ def _cc_job(kw):
     except O.FoldFailure as f:
         return ("fold", f.outcome.status, f"{f.outcome.etype} {f.outcome.msg}"[:160])
     x, Q2 = A.sym("xB", True), A.sym("Q2", True)
-    bad = []
+    # every part of a massive CC convolution lives at the slow-rescaling point: also the local and the subtraction terms, whoever evaluates
+    # the basis functions for them
+    bad = sorted(set(getattr(op.ev, "mixed_points", [])))[:2]
     n = 0
     # single heavy-quark production in CC opens at W^2 = m^2 (chi = 1), not at the pair threshold W^2 = 4 m^2: the operator
     # must be the same on both sides of the latter
